@@ -547,6 +547,33 @@ fn ball_bounds_native(sub: &mut Sub, cfg: &Config, idx: u64) {
     chk("Sphere::rect3", "f64/f32", "rect_not_centre_minus_radius_diameter", rc.x == fx - frd && rc.y == fy - frd && rc.z == fz - frd && rc.w == 2.0 * fr && rc.h == 2.0 * fr && rc.d == 2.0 * fr, format!("{:?}", rc));
     let dd = call!(sub, cfg, idx, "Sphere::diameter", "f64/f32", detail, sm.diameter());
     chk("Sphere::diameter", "f64/f32", "diameter_not_twice_radius", dd == 2.0 * fr, format!("{}", dd));
+    // bounds evaluated in the element type itself: large-magnitude float centres where centre - radius
+    // or centre + radius is not exactly representable (the bound is then the rounded sum / difference,
+    // computed once), and integer shapes whose radius exceeds a quarter of the type's range while both
+    // bounds stay representable
+    {
+        let cf: Vec<f32> = (0..3).map(|_| (16_777_216 + 2 * rng.range_i64(-40, 40)) as f32 * if rng.bool() { 1.0 } else { -1.0 }).collect();
+        let rf: f32 = *rng.pick(&[1.0f32, 3.0, 0.5, 5.0, 1.5]);
+        let df = Disk::<f32, f32>::new(Vec2 { x: cf[0], y: cf[1] }, rf);
+        let b = call!(sub, cfg, idx, "Disk::aabr", "f32", detail, df.aabr());
+        chk("Disk::aabr", "f32", "bounds_not_centre_pm_radius", b.min.x == cf[0] - rf && b.min.y == cf[1] - rf && b.max.x == cf[0] + rf && b.max.y == cf[1] + rf, format!("center {:?} radius {}: {:?}, centre -/+ radius in f32 = ({}, {}) / ({}, {})", &cf[..2], rf, b, cf[0] - rf, cf[1] - rf, cf[0] + rf, cf[1] + rf));
+        let sf = Sphere::<f32, f32>::new(Vec3 { x: cf[0], y: cf[1], z: cf[2] }, rf);
+        let b = call!(sub, cfg, idx, "Sphere::aabb", "f32", detail, sf.aabb());
+        chk("Sphere::aabb", "f32", "bounds_not_centre_pm_radius", b.min.x == cf[0] - rf && b.min.z == cf[2] - rf && b.max.y == cf[1] + rf && b.max.z == cf[2] + rf, format!("center {:?} radius {}: {:?}", cf, rf, b));
+        let cd: Vec<f64> = (0..3).map(|_| rng.f64_in(-1000.0, 1000.0)).collect();
+        let rd: f64 = rng.f64_in(0.001, 10.0);
+        let sd = Sphere::<f64, f64>::new(Vec3 { x: cd[0], y: cd[1], z: cd[2] }, rd);
+        let b = call!(sub, cfg, idx, "Sphere::aabb", "f64", detail, sd.aabb());
+        chk("Sphere::aabb", "f64", "bounds_not_centre_pm_radius", b.min.x == cd[0] - rd && b.min.y == cd[1] - rd && b.min.z == cd[2] - rd && b.max.x == cd[0] + rd && b.max.y == cd[1] + rd && b.max.z == cd[2] + rd, format!("center {:?} radius {}: {:?}", cd, rd, b));
+        let bigr: i32 = 1_500_000_000 + rng.range_i64(0, 1000) as i32;
+        let ci: Vec<i32> = (0..3).map(|_| rng.range_i64(-1000, 1000) as i32).collect();
+        let di = Disk::<i32, i32>::new(Vec2 { x: ci[0], y: ci[1] }, bigr);
+        let b = call!(sub, cfg, idx, "Disk::aabr", "i32", detail, di.aabr());
+        chk("Disk::aabr", "i32", "bounds_not_centre_pm_radius", b.min.x == ci[0] - bigr && b.min.y == ci[1] - bigr && b.max.x == ci[0] + bigr && b.max.y == ci[1] + bigr, format!("center {:?} radius {}: {:?}", &ci[..2], bigr, b));
+        let si = Sphere::<i8, i8>::new(Vec3 { x: (ci[0] % 20) as i8, y: (ci[1] % 20) as i8, z: (ci[2] % 20) as i8 }, 100);
+        let b = call!(sub, cfg, idx, "Sphere::aabb", "i8", detail, si.aabb());
+        chk("Sphere::aabb", "i8", "bounds_not_centre_pm_radius", b.min.x == si.center.x - 100 && b.max.x == si.center.x + 100 && b.min.z == si.center.z - 100 && b.max.z == si.center.z + 100, format!("{:?}: {:?}", si, b));
+    }
     // data movement of the constructors on opaque tokens
     let t = |k: u32| Tag(1000 + 10 * (idx as u32 % 1000) + k);
     let dt = Disk::<Tag, Tag>::new(Vec2 { x: t(0), y: t(1) }, t(2));
